@@ -812,13 +812,18 @@ where
     pub fn is_reducible(&self, head: usize) -> Result<bool, Error> {
         let back_edges = self.compute_back_edges(head)?;
 
+        // Vertices unreachable from head are not part of the flow graph.
+        let reachable = self.reachable_vertices(head)?;
+
         // Build a graph without back edges, a.k.a. forward edges (FE) graph.
         let mut fe_graph = Graph::new();
         for index in self.vertices.keys() {
-            fe_graph.insert_vertex(NullVertex::new(*index))?;
+            if reachable.contains(index) {
+                fe_graph.insert_vertex(NullVertex::new(*index))?;
+            }
         }
         for edge in self.edges.keys() {
-            if !back_edges.contains(edge) {
+            if reachable.contains(&edge.0) && !back_edges.contains(edge) {
                 fe_graph.insert_edge(NullEdge::new(edge.0, edge.1))?;
             }
         }
